@@ -2,6 +2,7 @@
 Helper lemma for C18 (wavelet coefficient layout).
 -/
 import OdlModel.Model.Wavelet
+import Mathlib.Algebra.Field.Basic
 
 namespace OdlModel.Wavelet
 theorem unravel_aux {K : Type} (blocks : List (List K)) : ∀ (pre : List K) (suf : List K),
@@ -18,3 +19,27 @@ theorem unravel_aux {K : Type} (blocks : List (List K)) : ∀ (pre : List K) (su
       exact this
 
 end OdlModel.Wavelet
+
+namespace OdlModel.Wavelet
+theorem slicesFrom_length (o : Nat) (l : List Nat) : (slicesFrom o l).length = l.length := by
+  induction l generalizing o with
+  | nil => rfl
+  | cons a t ih => simp [slicesFrom, ih]
+end OdlModel.Wavelet
+
+
+namespace OdlModel.Wavelet
+theorem foldl_weight_ones {K : Type} [Field K] (l : List ((K × K) × Nat × Nat))
+    (h : ∀ t ∈ l, t.1 = ((1 : K), (1 : K))) (const : K) :
+    l.foldl (fun acc (t : (K × K) × Nat × Nat) =>
+      (acc * (if t.2.2 = 0 then t.1.1 else 1)) * (if t.2.2 + 1 = t.2.1 then t.1.2 else 1)) const
+      = const := by
+  induction l generalizing const with
+  | nil => rfl
+  | cons a r ih =>
+    have ha : a.1 = ((1 : K), (1 : K)) := h a (by simp)
+    rw [List.foldl_cons, ha]
+    simp only [ite_self, mul_one]
+    exact ih (fun t ht => h t (by simp [ht])) const
+end OdlModel.Wavelet
+
